@@ -36,6 +36,9 @@ type Node struct {
 	Parents  []*Node // every node listing this one as a child (well-formed: exactly one, root/sentinel none)
 	Pos      token.Pos
 	Call     *ast.CallExpr
+	// ChildExprs: the child arguments, when they do not sit in Call.Args[3:] (node built through a helper)
+	ChildExprs []ast.Expr
+	viaHelper  bool
 }
 
 // Model is the extracted tree.
@@ -214,8 +217,11 @@ func extract(c *core.Ctx) *Model {
 			continue // literal node: no children
 		}
 		childArgs := n.Call.Args[3:]
+		if n.viaHelper {
+			childArgs = n.ChildExprs
+		}
 		// children handed over as list()... : a parameterless package function whose body is `return []*T{a, b, ...}`
-		if n.Call.Ellipsis.IsValid() && len(childArgs) == 1 {
+		if !n.viaHelper && n.Call.Ellipsis.IsValid() && len(childArgs) == 1 {
 			if lst := listFuncElems(pkg.Syntax, info, childArgs[0]); lst != nil {
 				childArgs = lst
 			}
@@ -290,6 +296,9 @@ func (m *Model) parseInit(c *core.Ctx, info *types.Info, obj *types.Var, e ast.E
 	call, ok := ast.Unparen(e).(*ast.CallExpr)
 	if !ok {
 		return nil
+	}
+	if n := m.parseViaHelper(info, obj, call); n != nil {
+		return n
 	}
 	n := &Node{Var: obj, Name: obj.Name(), Pos: obj.Pos(), AliasOK: true}
 	if sel, ok := call.Fun.(*ast.SelectorExpr); ok {
@@ -788,4 +797,168 @@ func listFuncElems(files []*ast.File, info *types.Info, e ast.Expr) []ast.Expr {
 		}
 	}
 	return nil
+}
+
+// parseViaHelper reads a node registered through a helper of the tree file:
+//
+//	func helper(p1, p2 string, det D, children ...*T) *T {
+//		[const ( ... )]
+//		return ctor(<string expr over constants and p's>, <...>, det, children...)[.alias(<string exprs>)]
+//	}
+//
+// The helper's return expression is read with its parameters bound to the
+// arguments of the call; strings are folded from constants only.
+func (m *Model) parseViaHelper(info *types.Info, obj *types.Var, call *ast.CallExpr) *Node {
+	id, ok := ast.Unparen(call.Fun).(*ast.Ident)
+	if !ok || call.Ellipsis.IsValid() {
+		return nil
+	}
+	fn, ok := info.Uses[id].(*types.Func)
+	if !ok || fn == m.Ctor {
+		return nil
+	}
+	var fd *ast.FuncDecl
+	for _, file := range m.files {
+		for _, d := range file.Decls {
+			if x, ok := d.(*ast.FuncDecl); ok && x.Recv == nil && info.Defs[x.Name] == types.Object(fn) {
+				fd = x
+			}
+		}
+	}
+	if fd == nil || fd.Body == nil {
+		return nil
+	}
+	var ret *ast.ReturnStmt
+	for _, st := range fd.Body.List {
+		switch x := st.(type) {
+		case *ast.DeclStmt:
+			gd, ok := x.Decl.(*ast.GenDecl)
+			if !ok || gd.Tok != token.CONST {
+				return nil
+			}
+		case *ast.ReturnStmt:
+			if ret != nil {
+				return nil
+			}
+			ret = x
+		default:
+			return nil
+		}
+	}
+	if ret == nil || len(ret.Results) != 1 {
+		return nil
+	}
+	// bind parameters
+	env := map[types.Object]ast.Expr{}
+	var variadic types.Object
+	var rest []ast.Expr
+	sig := fn.Type().(*types.Signature)
+	pi := 0
+	for _, fld := range fd.Type.Params.List {
+		for _, name := range fld.Names {
+			po := info.Defs[name]
+			if sig.Variadic() && pi == sig.Params().Len()-1 {
+				variadic = po
+				if pi <= len(call.Args) {
+					rest = call.Args[pi:]
+				}
+			} else {
+				if pi >= len(call.Args) {
+					return nil
+				}
+				env[po] = call.Args[pi]
+			}
+			pi++
+		}
+	}
+	var str func(e ast.Expr, inHelper bool) (string, bool)
+	str = func(e ast.Expr, inHelper bool) (string, bool) {
+		e = ast.Unparen(e)
+		if tv := info.Types[e]; tv.Value != nil && tv.Value.Kind() == constant.String {
+			return constant.StringVal(tv.Value), true
+		}
+		switch x := e.(type) {
+		case *ast.Ident:
+			if a, ok := env[info.Uses[x]]; ok && inHelper {
+				return str(a, false)
+			}
+		case *ast.BinaryExpr:
+			if x.Op == token.ADD {
+				l, ok1 := str(x.X, inHelper)
+				r, ok2 := str(x.Y, inHelper)
+				return l + r, ok1 && ok2
+			}
+		}
+		return "", false
+	}
+	n := &Node{Var: obj, Name: obj.Name(), Pos: obj.Pos(), AliasOK: true, viaHelper: true}
+	inner, ok := ast.Unparen(ret.Results[0]).(*ast.CallExpr)
+	if !ok {
+		return nil
+	}
+	if sel, ok := inner.Fun.(*ast.SelectorExpr); ok {
+		s := info.Selections[sel]
+		if s == nil || m.AliasM == nil || s.Obj() != m.AliasM || inner.Ellipsis.IsValid() {
+			return nil
+		}
+		for _, a := range inner.Args {
+			if v, ok := str(a, true); ok {
+				n.Aliases = append(n.Aliases, v)
+				n.AliasPos = append(n.AliasPos, call.Pos())
+			} else {
+				n.AliasOK = false
+			}
+		}
+		inner, ok = ast.Unparen(sel.X).(*ast.CallExpr)
+		if !ok {
+			return nil
+		}
+	}
+	cid, ok := inner.Fun.(*ast.Ident)
+	if !ok || info.Uses[cid] != m.Ctor || len(inner.Args) < 3 {
+		return nil
+	}
+	n.Call = call
+	if v, ok := str(inner.Args[0], true); ok {
+		n.Mime, n.MimeOK = v, true
+	}
+	if v, ok := str(inner.Args[1], true); ok {
+		n.Ext = v
+	}
+	det := ast.Unparen(inner.Args[2])
+	if di, ok := det.(*ast.Ident); ok {
+		if a, bound := env[info.Uses[di]]; bound {
+			det = ast.Unparen(a)
+		}
+	}
+	n.DetExpr = det
+	switch d := det.(type) {
+	case *ast.SelectorExpr:
+		n.DetObj = info.Uses[d.Sel]
+	case *ast.Ident:
+		n.DetObj = info.Uses[d]
+	}
+	// children: fixed ones written in the helper, then the helper's own variadic parameter handed on
+	kids := inner.Args[3:]
+	if inner.Ellipsis.IsValid() {
+		if len(kids) != 1 {
+			return nil
+		}
+		ki, ok := ast.Unparen(kids[0]).(*ast.Ident)
+		if !ok || variadic == nil || info.Uses[ki] != variadic {
+			return nil
+		}
+		n.ChildExprs = rest
+	} else {
+		for _, k := range kids {
+			if ki, ok := ast.Unparen(k).(*ast.Ident); ok {
+				if a, bound := env[info.Uses[ki]]; bound {
+					n.ChildExprs = append(n.ChildExprs, a)
+					continue
+				}
+			}
+			n.ChildExprs = append(n.ChildExprs, k)
+		}
+	}
+	return n
 }
